@@ -215,3 +215,46 @@ func loadSaved(path string) (*savedCase, error) {
 	}
 	return rp.Case, nil
 }
+
+// cmdProbe runs an arbitrary operation against the configuration / universe of a replay file
+// (narrowing a finding by hand):  c01 probe -in FILE [-op 'query'] [-vars '{}'] [-plan 1]
+func cmdProbe(a map[string]string) {
+	sc, err := loadSaved(a["in"])
+	if err != nil {
+		fmt.Println(err)
+		os.Exit(2)
+	}
+	lab, err := fedlab.NewLab(sc.Cfg, sc.U, nil, fedlab.EngineOptions{})
+	if err != nil {
+		fmt.Println(err)
+		os.Exit(2)
+	}
+	defer lab.Close()
+	op, vars := sc.Op.Text(), []byte(sc.Op.VariablesJSON())
+	if a["op"] != "" {
+		op, vars = a["op"], []byte("{}")
+	}
+	if a["vars"] != "" {
+		vars = []byte(a["vars"])
+	}
+	if a["plan"] == "1" {
+		p, err := lab.Plan(op, "")
+		fmt.Println(p, err)
+	}
+	v := fedlab.Check(lab, op, "", vars, nil)
+	fmt.Println("op:", op)
+	fmt.Println("failed:", v.Failed(), v.FailDetail(), v.LabError)
+	if v.Gateway != nil {
+		fmt.Println("gateway:", string(v.Gateway.Response))
+		for _, q := range v.Gateway.Requests {
+			vs := ""
+			if q.Variables != nil {
+				vs = q.Variables.String()
+			}
+			fmt.Printf("  [%d %s] %s %s\n      -> %s\n", q.Index, q.Subgraph, q.Query, vs, string(q.Response))
+		}
+	}
+	if v.Ref != nil {
+		fmt.Println("reference:", v.Ref.Data.String(), "errors:", v.Ref.NErrors)
+	}
+}
